@@ -1238,8 +1238,6 @@ impl Iterator for FileIterator<'_> {
             return None;
         }
 
-        // @todo: probably safe to hand out a reference instead of cloning, just a bit more painful
-        let file_entry = self.file_entries[self.count].clone();
         self.count += 1;
 
         let reader = payload::Reader::new(&mut self.archive, &self.file_entries);
@@ -1249,6 +1247,19 @@ impl Iterator for FileIterator<'_> {
                 if entry_reader.is_trailer() {
                     return None;
                 }
+
+                // Pair the content with the metadata of the file the archive entry names: the
+                // archive may omit files (%ghost) or order them differently from the header.
+                // @todo: probably safe to hand out a reference instead of cloning, just a bit more painful
+                let file_entry = match entry_reader.file_entry_index(&self.file_entries) {
+                    Some(index) => self.file_entries[index].clone(),
+                    None => {
+                        return Some(Err(Error::Io(io::Error::new(
+                            io::ErrorKind::InvalidData,
+                            "archive entry does not belong to any file of the header",
+                        ))));
+                    }
+                };
 
                 let mut content = Vec::new();
 
